@@ -44,20 +44,41 @@ def pv(v):
     if isinstance(v, (np.integer, np.floating, np.complexfloating)):
         k, r = num_kr(v.item())
         return {"t": "npnum", "dtype": v.dtype.str, "kind": k, "repr": r}
+    if isinstance(v, int) and not isinstance(v, bool) and not (-2**63 <= v < 2**63):
+        # a Python int that does not fit int64: h5py raises OverflowError when asked to store it (contract H6);
+        # the same value can legitimately come BACK from a uint64 dataset, so it stays a number with a flag
+        return {"t": "num", "kind": "int", "repr": str(v), "big": True}
     if isinstance(v, (int, float, complex)):
         k, r = num_kr(v)
         return {"t": "num", "kind": k, "repr": r}
     if isinstance(v, str):
+        if "\x00" in v:
+            return {"t": "other", "kind": "str-with-NUL"}        # h5py refuses embedded NULs (contract H6)
         return {"t": "str", "v": v}
     if isinstance(v, bytes):
         return {"t": "bytes", "v": v.decode("latin1")}
     if isinstance(v, np.ndarray):
+        if store_token(v) is None:
+            return {"t": "other", "kind": "array-h5py-refuses"}  # unicode / object arrays (contract H6)
         return {"t": "arr", "tok": alpha.array_token(v)}
     if isinstance(v, (tuple, list)):
         return {"t": "tuple" if isinstance(v, tuple) else "list", "xs": [pv(x) for x in v], "st": store_token(v)}
     if isinstance(v, dict):
+        if not all(isinstance(k, str) for k in v):
+            return {"t": "other", "kind": "dict-with-non-str-keys"}
         return {"t": "dict", "items": [[str(k), pv(x)] for k, x in v.items()]}
     return {"t": "other", "kind": type(v).__name__}
+
+
+def model_view(j):
+    """the value as the model is told about it: what h5py refuses to store is an unsupported kind"""
+    if isinstance(j, dict):
+        if j.get("t") == "num" and j.get("big"):
+            return {"t": "other", "kind": "int-beyond-int64"}
+        return {k: model_view(v) for k, v in j.items()}
+    if isinstance(j, list):
+        return [model_view(x) for x in j]
+    return j
 
 
 def numlike(j):
@@ -87,7 +108,7 @@ def canon_val(j):
         return {"t": t, "xs": out}
     if t == "dict":
         return {"t": "dict", "items": sorted(([k, canon_val(v)] for k, v in j["items"]), key=lambda e: e[0])}
-    return {k: v for k, v in j.items() if k != "st"}
+    return {k: v for k, v in j.items() if k not in ("st", "big")}
 
 
 def canon_items(items):
